@@ -44,6 +44,48 @@ def _sym_history(c0, c1, st0, st1, fresh_session):
         return "content %r (stat %r) then %r (stat %r): second hash is stale (equals first: %s)" % (c0, st0, c1, st1, h1 == h0)
     return None
 
+class _Crash(Exception):
+    pass
+
+def _crash_history(c0, cut):
+    """the process dies while the persistent entry for the file's hash is being written (after `cut` bytes); a later session
+    hashes the same, unchanged file and must get the hash a fresh cache gives"""
+    import pathlib
+    HH.reset()
+    loc, loc2 = E.scratch(), E.scratch()
+    real_wb = pathlib.Path.write_bytes
+    def dying_write(self, data):
+        if str(self).startswith(loc):
+            with open(self, "wb") as fp:
+                fp.write(bytes(data)[:min(cut, max(len(data) - 1, 0))])
+            raise _Crash()
+        return real_wb(self, data)
+    try:
+        state = {"content": c0, "stat": (5, 5, len(c0), 7)}
+        f = HH.SymFile("/data/f.txt", state)
+        pathlib.Path.write_bytes = dying_write
+        crashed = False
+        try:
+            H.hash_object(f, persistent_cache=H.PersistentCache(loc))
+        except _Crash:
+            crashed = True
+        finally:
+            pathlib.Path.write_bytes = real_wb
+        for lk in os.listdir(loc):
+            if lk.endswith(".lock"):
+                os.unlink(os.path.join(loc, lk))          # the dead process's lock is gone (filelock breaks stale locks)
+        h1 = H.hash_object(f, persistent_cache=H.PersistentCache(loc))
+        want = H.hash_object(f, persistent_cache=H.PersistentCache(loc2))
+    finally:
+        pathlib.Path.write_bytes = real_wb
+        E.cleanup(loc); E.cleanup(loc2)
+    T.reach()
+    if not crashed:
+        return "the crash point was not reached (the entry is no longer written through Path.write_bytes)"
+    if h1 != want:
+        return "content %r, process died after writing %d byte(s) of the persistent entry: a later session gets hash %r, a fresh cache gives %r" % (c0, cut, bytes(h1), bytes(want))
+    return None
+
 def _real_dir_history(op, same_size):
     """a real Directory input: change something inside it between two hashings"""
     from fileformats.generic import Directory
@@ -172,6 +214,11 @@ def build(tier, seed, exclude):
         err = _real_dir_history(T.real(op), T.real(same_size))
         return T.fail(err) if err else True
     """, timeout=90)
+    # a process that dies while storing the persistent entry
+    g.cond("h_crash_while_storing", "c0: bytes, cut: int", ["len(c0) <= 2 and 0 <= cut <= 4"], """
+        err = _crash_history(T.real(c0), T.real(cut))
+        return T.fail(err) if err else True
+    """, timeout=to)
     g.cond("twin_c09", "c0: bytes", ["len(c0) <= 1"], """
         c0 = T.real(c0)
         err = _sym_history(c0, b"zz", (1, 1, len(c0), 1), (2, 2, 2, 1), True)
